@@ -455,6 +455,98 @@ impl Rewriter {
         None
     }
 
+    // ---- R-threads -----------------------------------------------------------------------------------------
+    /// (a) `thread::spawn(move || { .. })`: the closure body is DROPPED from the verified text (a reporter thread that
+    ///     shares only the channel receivers it moved in with the rest of the function); the handle is an opaque value
+    ///     whose `join()` may return anything.  What the thread does — in particular whether it terminates — is not decided.
+    fn r_thread_spawn(&mut self, e: &Expr) -> Option<Expr> {
+        let Expr::Call(c) = e else { return None };
+        let f = txt(&c.func).replace(' ', "");
+        if !(f == "thread::spawn" || f == "std::thread::spawn") || c.args.len() != 1 {
+            return None;
+        }
+        let Expr::Closure(cl) = &c.args[0] else { return None };
+        if cl.capture.is_none() || !cl.inputs.is_empty() {
+            return None;
+        }
+        let first = cl.body.span().start().line;
+        let last = cl.body.span().end().line;
+        self.dropped.push(format!("body of the `move` closure handed to thread::spawn at lines {}-{} (reporter thread: console UI and polling of the statistics channels; termination not decided)", first, last));
+        Some(parse_quote!( vx_thread_spawned() ))
+    }
+    /// (b) `thread::scope(|s| { let hs: Vec<_> = A.iter_mut().zip(B).map(|(x, y)| { s.spawn(|| BODY) }).collect();
+    ///      hs.into_iter().map(|h| { h.join().expect(..) }).collect() })`
+    ///     -> the in-order map `BODY` over the pairs (ASSUMED, like R-par: scoped threads whose closures touch only their own
+    ///     element and sender compute what the sequential map computes; a panic in BODY is a panic of the whole expression)
+    fn r_thread_scope(&mut self, e: &Expr) -> Option<Expr> {
+        let Expr::Call(c) = e else { return None };
+        let f = txt(&c.func).replace(' ', "");
+        if !(f == "thread::scope" || f == "std::thread::scope") || c.args.len() != 1 {
+            return None;
+        }
+        let Expr::Closure(cl) = &c.args[0] else { return None };
+        if cl.inputs.len() != 1 {
+            return None;
+        }
+        let Pat::Ident(sp) = pat_inner(&cl.inputs[0]) else { return None };
+        let sname = sp.ident.to_string();
+        let Expr::Block(b) = &*cl.body else { return None };
+        let stmts = &b.block.stmts;
+        if stmts.len() != 2 {
+            return None;
+        }
+        // statement 1: let hs: .. = A.iter_mut().zip(B).map(|(x, y)| { s.spawn(|| BODY) }).collect();
+        let Stmt::Local(l) = &stmts[0] else { return None };
+        let Pat::Ident(hp) = pat_inner(&l.pat) else { return None };
+        let hname = hp.ident.to_string();
+        let init = &l.init.as_ref()?.expr;
+        let Expr::MethodCall(coll) = strip_paren(init) else { return None };
+        if coll.method != "collect" { return None; }
+        let Expr::MethodCall(mp) = strip_paren(&coll.receiver) else { return None };
+        if mp.method != "map" || mp.args.len() != 1 { return None; }
+        let Expr::Closure(mcl) = &mp.args[0] else { return None };
+        if mcl.inputs.len() != 1 { return None; }
+        let Pat::Tuple(pt) = pat_inner(&mcl.inputs[0]) else { return None };
+        if pt.elems.len() != 2 { return None; }
+        let (xp, yp) = (pat_inner(&pt.elems[0]).clone(), pat_inner(&pt.elems[1]).clone());
+        let Expr::MethodCall(zp) = strip_paren(&mp.receiver) else { return None };
+        if zp.method != "zip" || zp.args.len() != 1 { return None; }
+        let Expr::MethodCall(im) = strip_paren(&zp.receiver) else { return None };
+        if im.method != "iter_mut" || !im.args.is_empty() || !is_place(&im.receiver) { return None; }
+        let a = strip_paren(&im.receiver).clone();
+        let bsrc = strip_paren(&zp.args[0]).clone();
+        if !matches!(bsrc, Expr::Path(_)) { return None; }
+        // closure body: { s.spawn(|| BODY) }
+        let (ms, mt) = closure_body_stmts(&mcl.body);
+        if !ms.is_empty() { return None; }
+        let Expr::MethodCall(spn) = strip_paren(mt.as_ref()?) else { return None };
+        if spn.method != "spawn" || spn.args.len() != 1 || txt(&spn.receiver) != sname { return None; }
+        let Expr::Closure(wcl) = &spn.args[0] else { return None };
+        if !wcl.inputs.is_empty() { return None; }
+        let (mut wstmts, wtail) = closure_body_stmts(&wcl.body);
+        let wtail = wtail?;
+        // statement 2 (tail): hs.into_iter().map(|h| { h.join().expect(..) }).collect()
+        let Stmt::Expr(tail, None) = &stmts[1] else { return None };
+        let tt = txt(tail).replace(' ', "");
+        if !(tt.starts_with(&format!("{}.into_iter().map(|", hname)) && tt.contains(".join().expect(") && tt.ends_with(".collect()")) {
+            return None;
+        }
+        let out = self.fresh("out");
+        let q = self.fresh("q");
+        let k = self.fresh("k");
+        wstmts.push(parse_quote!( #out.push(#wtail); ));
+        Some(parse_quote!({
+            let mut #out = Vec::new();
+            let mut #q = #bsrc;
+            for #k in 0..vx_min(#a.len(), #q.len()) {
+                let #xp = &mut #a[#k];
+                let #yp = vx_pop_front(&mut #q);
+                #(#wstmts)*
+            }
+            #out
+        }))
+    }
+
     // ---- R-extendmap: V.extend(SRC.map(|p| e)) / V.extend(W) -> pushes in iteration order --------------
     fn r_extendmap(&mut self, e: &Expr) -> Option<Expr> {
         let Expr::MethodCall(mc) = e else { return None };
@@ -1189,6 +1281,19 @@ impl VisitMut for Rewriter {
                 }
             }
         }
+        // R-threads matches whole thread::spawn / thread::scope expressions: before any rule rewrites their insides
+        if self.on("R-threads") {
+            let line0 = e.span().start().line;
+            if let Some(n) = self.r_thread_spawn(e) {
+                self.record("R-threads", line0, e, &n);
+                *e = n;
+                return;
+            }
+            if let Some(n) = self.r_thread_scope(e) {
+                self.record("R-threads", line0, e, &n);
+                *e = n;
+            }
+        }
         // children first
         visit_mut::visit_expr_mut(self, e);
         let line = e.span().start().line;
@@ -1445,6 +1550,7 @@ pub fn selftest() -> i32 {
         ("{ for (c, ch) in data.axis_iter(Axis(0)).enumerate() { g(c, ch); } let m = format!(\"x {e:?}\"); }", &["R-axisfor", "R-fmtargs", "R-fmt"], "for c in 0 .. data . len_of (Axis (0)) { let ch = data . index_axis (Axis (0) , c) ; g (c , ch) ; } let m = fmt_opaque () ;", &["R-axisfor", "R-fmt"]),
         ("{ let mut row = vec![c.to_string(), \"chain\".to_string()]; }", &["R-tostring"], "vec ! [vx_to_string (& c) , vx_to_string (& \"chain\")]", &["R-tostring", "R-tostring"]),
         ("{ for mut b in bs { out.push(g(b.finish())); } let v: f64 = (*val).into(); }", &["R-formut", "R-into"], "for __vx_m1 in bs { let mut b = __vx_m1 ; out . push (g (b . finish ())) ; } let v : f64 = vx_into ((* val)) ;", &["R-formut", "R-into"]),
+        ("{ let h = thread::spawn(move || { loop { poll(&rxs); } }); let v: Vec<A> = thread::scope(|s| { let hs: Vec<H> = cs.iter_mut().zip(txs).map(|(c, tx)| { s.spawn(|| { run(c, tx).expect(\"x\") }) }).collect(); hs.into_iter().map(|h| { h.join().expect(\"y\") }).collect() }); }", &["R-threads"], "let h = vx_thread_spawned () ; let v : Vec < A > = { let mut __vx_out1 = Vec :: new () ; let mut __vx_q1 = txs ; for __vx_k1 in 0 .. vx_min (cs . len () , __vx_q1 . len ()) { let c = & mut cs [__vx_k1] ; let tx = vx_pop_front (& mut __vx_q1) ; __vx_out1 . push (run (c , tx) . expect (\"x\")) ; } __vx_out1 } ;", &["R-threads", "R-threads"]),
         ("{ if (now >= last + freq) | (i == total - 1) { f(); } }", &["R-boolor"], "if vx_bor ((now >= last + freq) , (i == total - 1)) { f () ; }", &["R-boolor"]),
         ("{ for w in rho.windows_with_stride(2, 2) { f(w); } }", &["R-windows"], "for __vx_w1 in 0 .. vx_win_count (rho . len () , 2 , 2) { let w = nd_window (& rho , __vx_w1 * 2 , 2) ; f (w) ; }", &["R-windows"]),
         ("{ out.axis_iter_mut(Axis(1)).into_par_iter().enumerate().for_each(|(c, mut oc)| { let d = g(c); oc[3] = d; }); }", &["R-par", "R-axisiter"], "for c in 0 .. out . ncols () { let d = g (c) ; nd_set2 (& mut out , 3 , c , d) ; }", &["R-par", "R-axisiter"]),
